@@ -307,7 +307,9 @@ def forms():
     add('SE3.RPY', 'array', [('v', V3, 'ang')], SE3.RPY)
     add('SE3.RPY', 'list,unit=deg', [('v', V3, 'deg')], lambda v: SE3.RPY(L(v), unit='deg'), trace='tr_SE3_RPY_deg', post='deg')
     add('SE3.RPY', '[a,0.0,c]', [('a', S, 'ang'), ('c', S, 'ang')], lambda a, c: SE3.RPY([a, 0.0, c]), trace='tr_SE3_RPY_a0c')
-    add('SE3.Delta', 'array', [('d', V6, 'delta')], SE3.Delta, trace='tr_SE3_Delta')
+    add('SE3.Delta', 'd (array)', [('d', V6, 'delta')], SE3.Delta, trace='tr_SE3_Delta')
+    add('SE3.Delta', 'd (list)', [('d', V6, 'delta')], lambda d: SE3.Delta(L(d)))
+    add('SE3.Delta', '[x,0.2,0.3,a,0.1,c]', [('x', S, 'lin'), ('a', S, 'gen'), ('c', S, 'gen')], lambda x, a, c: SE3.Delta([x, 0.2, 0.3, a, 0.1, c]))
     # ---------------- simplify
     add('SMPose.simplify', 'Rx(a)*Rx(a).inv()', [('a', S, 'ang')], lambda a: (SE3.Rx(a) * SE3.Rx(a).inv()).simplify(), trace='tr_simplify_RxRxinv',
         numcall=lambda a: SE3.Rx(a) * SE3.Rx(a).inv())
@@ -322,7 +324,14 @@ def forms():
     add('op.SE3**n', 'X**2', [('X', M44, 'se3')], lambda X: SE3(X, check=False) ** 2, trace='tr_SE3_pow2', post='expand')
     add('op.SE3**n', 'X**3', [('X', M44, 'se3')], lambda X: SE3(X, check=False) ** 3, trace='tr_SE3_pow3', post='expand')
     add('op.SE3**n', 'X**0', [('X', M44, 'se3')], lambda X: SE3(X, check=False) ** 0, trace='tr_SE3_pow0')
-    add('op.SE3**n', 'X**-1', [('X', M44, 'se3')], lambda X: SE3(X, check=False) ** -1, trace='tr_SE3_powm1')
+    add('op.SE3**n', 'X ** -1', [('X', M44, 'se3')], lambda X: SE3(X, check=False) ** -1, trace='tr_SE3_powm1')
+    add('op.SE3**n', 'X ** -2', [('X', M44, 'se3')], lambda X: SE3(X, check=False) ** -2, trace='tr_SE3_powm2', post='expand')
+    add('op.SE3**n', 'X ** -1 (any 3x4 block)', [('X', M44, 'hom')], lambda X: SE3(X, check=False) ** -1)
+    add('op.SE3**n', 'Rx(a,t=[x,2,z]) ** -1', [('a', S, 'ang'), ('x', S, 'lin'), ('z', S, 'lin')], lambda a, x, z: SE3.Rx(a, t=[x, 2, z]) ** -1)
+    add('op.SO3**n', 'R ** -1', [('R', M33, 'rot')], lambda R: SO3(R, check=False) ** -1, trace='tr_SO3_powm1')
+    add('op.SE2**n', 'X ** -1', [('X', M33, 'se2')], lambda X: SE2(X, check=False) ** -1, trace='tr_SE2_powm1')
+    add('op.SO2**n', 'A ** -1', [('A', M22, 'rot2')], lambda A: SO2(A, check=False) ** -1, trace='tr_SO2_powm1')
+    add('op.SO2**n', 'A ** 2', [('A', M22, 'rot2')], lambda A: SO2(A, check=False) ** 2)
     add('op.SE3*point', 'X*array3', [('X', M44, 'se3'), ('v', V3, 'lin')], lambda X, v: P3(X) * v, trace='tr_SE3_pt')
     add('op.SE3*point', 'X*list3', [('X', M44, 'se3'), ('v', V3, 'lin')], lambda X, v: P3(X) * L(v), trace='tr_SE3_pt_list')
     add('op.SE3*point', 'X*[1,2,3]', [('X', M44, 'se3')], lambda X: P3(X) * [1, 2, 3], trace='tr_SE3_pt_num')
@@ -491,7 +500,8 @@ def num_args(rng, F, generic=False):
     vals = []
     for n, sh, dom in F.args:
         if dom == 'delta':
-            vals.append(np.array([draw(rng, 'gen') * 1e-9 for _ in range(6)]))
+            # differential motion: translation part any length, rotational part O(0.1 .. 1) (SE3.Delta normalises I + [d])
+            vals.append(np.array([draw(rng, 'gen') for _ in range(3)] + [float(rng.uniform(0.05, 1.0) * rng.choice([-1.0, 1.0])) for _ in range(3)]))
         else:
             vals.append(sample_arg(rng, sh, dom, generic))
     return vals
@@ -727,7 +737,7 @@ def corr_args(rng, F):
         elif dom in ('se2',):
             vals.append(rand_se2(rng, 1e-2, 1e2))
         elif dom == 'delta':
-            vals.append(np.array([draw(rng, 'gen') * 1e-9 for _ in range(6)]))
+            vals.append(np.array([draw(rng, 'gen') for _ in range(3)] + [float(rng.uniform(0.05, 1.0) * rng.choice([-1.0, 1.0])) for _ in range(3)]))
         else:
             vals.append(sample_arg(rng, sh, dom))
     return vals
@@ -766,7 +776,7 @@ def consts_text():
 
 
 def run(ctx):
-    ctx.rule = ("obligations: theorems of theories/Props/C16_{a,b,c,d,e}.v over the traces regenerated from /repo (the library run on "
+    ctx.rule = ("obligations: theorems of theories/Props/C16_{a,b,c,d,e,f}.v over the traces regenerated from /repo (the library run on "
                 "SymPy symbols, every ':SymPy: supported' entry enumerated from the docstrings + pose operators, every call form); "
                 "evaluations: oracle points (numbers substituted into the symbolic result vs the numeric call, 1e-12) + Sym==Num "
                 "cases (extracted Gallina vs numeric call); a case is distinct by its (entry, call form, arguments) signature")
@@ -796,7 +806,7 @@ def run(ctx):
         ctx.fail('gen:compile', 'generated traces do not compile: ' + err[-800:], no_input=True)
         return
     ctx.stats['traces'] = len(g.traces)
-    for f in ('C16_a.v', 'C16_b.v', 'C16_c.v', 'C16_d.v', 'C16_e.v'):
+    for f in ('C16_a.v', 'C16_b.v', 'C16_c.v', 'C16_d.v', 'C16_e.v', 'C16_f.v'):
         p = os.path.join(core.COQ, 'theories', 'Props', f)
         if os.path.exists(p):
             ctx.prove('theories/Props/' + f)
